@@ -85,7 +85,9 @@ func c17ArbitrationRun(t *testing.T, tape *simrt.Tape, o simwork.Opts) *simwork.
 
 	// the raw response
 	status := c17Statuses[tape.Choose(len(c17Statuses), "status")]
-	headers := g.headers("header", c17RespHeaderPool, map[string]bool{"Date": true}, map[string]bool{"Date": true})
+	// (the pool also has a name that middleware in front of the handler sets:
+	// the raw values are added to what was there before the handler ran)
+	headers := g.headers("header", append(append([]string(nil), c17RespHeaderPool...), "vary", "Vary"), map[string]bool{"Date": true}, map[string]bool{"Date": true})
 	trailers := c17GenTrailers(g, nil)
 	body := g.body("body")
 	raw := &conformancev1.RawHTTPResponse{StatusCode: status, Headers: c17ProtoHeaders(headers), Trailers: c17ProtoHeaders(trailers)}
@@ -250,8 +252,13 @@ func c17ArbitrationRun(t *testing.T, tape *simrt.Tape, o simwork.Opts) *simwork.
 			at = http.Header{}
 		}
 		for _, k := range keys {
-			if !c17EqualStrings(at.Values(k), want[k]) {
-				c17AddViolation(res, "c17/header-missing", "header %s at WriteHeader: %q, specified %q", k, at.Values(k), want[k])
+			wantVals := want[k]
+			if k == "Vary" && preset {
+				wantVals = append([]string{"Origin"}, wantVals...)
+				res.Probes["raw-header-shares-name-with-middleware"]++
+			}
+			if !c17EqualStrings(at.Values(k), wantVals) {
+				c17AddViolation(res, "c17/header-missing", "header %s at WriteHeader: %q, specified %q (set by earlier middleware: %v)", k, at.Values(k), want[k], k == "Vary" && preset)
 			}
 		}
 		for _, k := range c17SortedKeys(at) {
